@@ -377,7 +377,7 @@ def check_negative_slice(s: int, form: int, xs: List[int], k: int, step: int) ->
 
 
 CONDITIONS = [
-    dict(fn="check_demand", shards=(20, 40), budget=(100, 1500),
+    dict(fn="check_demand", shards=(20, 40), budget=(220, 1500),
          smoke=["check_demand(2, 2, 3, 0, 0, 2, [1, 2, 3], 2, True)",
                 "check_demand(2, 3, 0, 0, 1, 2, [1, 2, 3], 3, False)",
                 "check_demand(2, 7, 1, 0, 0, 0, [1, 2], 2, False)", "check_demand(2, 2, 3, 0, 0, 0, [95850, 35739], 1, True)"]),
